@@ -20,7 +20,7 @@ from .core import log, Infra
 
 
 class ModelRun:
-    def __init__(self, module, cfg, workers=8, xmx='8g', timeout=600, simulate=None, note=''):
+    def __init__(self, module, cfg, workers=8, xmx='8g', timeout=300, simulate=None, note=''):
         self.module, self.cfg, self.workers, self.xmx, self.timeout, self.simulate, self.note = module, cfg, workers, xmx, timeout, simulate, note
         self.hint = {}
         self.expect = None
